@@ -1,6 +1,6 @@
 (* entry points of the kinds "brpos" (C14) and "inspect" (C13): val -> val.  Glue. *)
 From Coq Require Import Strings.String.
-From GoCar Require Import Bytes Varint Cid Header Frame V2Header Scan Val RunScan BlockReaderPos.
+From GoCar Require Import Bytes Varint Cid Header Frame V2Header Scan Val RunScan BlockReaderPos Inspect.
 
 (* ---- kind brpos ------------------------------------------------------------------------
    input: ((srckind chunk) opts file hok-table hdr-table (choices: n1 = Next, n0 = SkipNext) expect)
@@ -127,3 +127,119 @@ Definition prop_brpos (input obs : val) : val :=
     then VL [VT "FAIL"; VT "truncation-reported-as-clean-eof"; VT "skipnext-after-length-varint"]
     else VT "ok"
   else VT "ok".
+
+(* ---- kind inspect ------------------------------------------------------------------------
+   input: (opts file hok-table hdr-table validate how)    [how: free-form tag of the generator]
+   observation: (inspect-part scan-part index-part)
+     inspect-part: (tnewerr e) | (tinsperr e) | (tok stats...)
+     scan-part:    what NewBlockReader + Next* (hash-verifying, same limits) did on the same bytes
+     index-part:   (tnone) | (tidx code) | (tidxerr e)   -- index.ReadCodec at IndexOffset *)
+Definition v_counts (m : list (N * N)) : val := VL (map (fun kv => VL [VN (fst kv); VN (snd kv)]) m).
+Definition v_v2hdr (h : v2hdr) : val :=
+  VL [VN (h_hi h); VN (h_lo h); VN (h_doff h); VN (h_dsize h); VN (h_ioff h)].
+Definition v_stats (t : stats) : list val :=
+  [VN (t_version t); v_v2hdr (t_header t); v_cids (t_roots t); v_of_bool (t_roots_present t);
+   VN (t_count t); v_counts (t_codecs t); v_counts (t_mhtypes t);
+   VN (t_avg_cid t); VN (t_max_cid t); VN (t_min_cid t);
+   VN (t_avg_blk t); VN (t_max_blk t); VN (t_min_blk t); VN (t_index_codec t)].
+
+Definition insp_opts (v : val) : ropts :=
+  mkropts (vbool (vnth 0 v)) (vN (vnth 1 v)) (vN (vnth 2 v)) false.
+
+Definition run_inspect (input : val) : val :=
+  let o := insp_opts (vnth 0 input) in
+  let file := vB (vnth 1 input) in
+  let hok := hok_lookup (vL (vnth 2 input)) in
+  let hdr := hdr_lookup (vL (vnth 3 input)) in
+  let validate := vbool (vnth 4 input) in
+  let scan :=
+    match br_read_all hok hdr o file with
+    | Err e => VL [VT "openerr"; v_err e]
+    | Ok (v, roots, s) => VL [VT "ok"; VN v; v_cids roots; v_scan s]
+    end in
+  match new_reader hdr o file with
+  | Err e => VL [VL [VT "newerr"; v_err e]; scan; VL [VT "none"]]
+  | Ok rd =>
+    VL [match inspect hok hdr o rd file validate with
+        | Err e => VL [VT "insperr"; v_err e]
+        | Ok t => VL (VT "ok" :: v_stats t)
+        end;
+        scan;
+        if negb (r_version rd =? 1) && has_index (r_hdr rd) then
+          match index_codec rd file with
+          | Ok code => VL [VT "idx"; VN code]
+          | Err e => VL [VT "idxerr"; v_err e]
+          end
+        else VL [VT "none"]]
+  end.
+
+Fixpoint val_eqb (fuel : nat) (a b : val) : bool :=
+  match fuel with
+  | O => false
+  | S f =>
+    match a, b with
+    | VN x, VN y => x =? y
+    | VB x, VB y => bytes_eqb x y
+    | VT x, VT y => String.eqb x y
+    | VL x, VL y =>
+        (fix go (l1 l2 : list val) : bool :=
+           match l1, l2 with
+           | [], [] => true
+           | u :: l1', v :: l2' => val_eqb f u v && go l1' l2'
+           | _, _ => false
+           end) x y
+    | _, _ => false
+    end
+  end.
+
+Definition stat_names : list string :=
+  ["version"; "header"; "roots"; "roots-present"; "block-count"; "codec-counts"; "mhtype-counts";
+   "avg-cid-length"; "max-cid-length"; "min-cid-length";
+   "avg-block-length"; "max-block-length"; "min-block-length"; "index-codec"]%string.
+
+Fixpoint first_diff (names : list string) (a b : list val) : option string :=
+  match names, a, b with
+  | nm :: names', x :: a', y :: b' => if val_eqb 50 x y then first_diff names' a' b' else Some nm
+  | [], [], [] => None
+  | _, _, _ => cl "shape"
+  end.
+
+(* the layer-B predicate, on implementation observations only: the real Inspect(true) against
+   the real BlockReader scan of the same bytes and the real index.ReadCodec *)
+Definition prop_inspect (input obs : val) : val :=
+  let validate := vbool (vnth 4 input) in
+  let insp := vnth 0 obs in
+  let scan := vnth 1 obs in
+  let idx := vnth 2 obs in
+  if negb validate || is_tag (vnth 0 insp) "newerr" then VT "ok"
+  else
+    let insp_ok := is_tag (vnth 0 insp) "ok" in
+    let scan_ok := is_tag (vnth 0 scan) "ok" && is_tag (vnth 1 (vnth 3 scan)) "eof" in
+    let idx_ok := negb (is_tag (vnth 0 idx) "idxerr") in
+    (* an io.EOF error reads as "clean end": Inspect may report it only where the BlockReader's
+       constructor does, or when the scan is clean and it is index.ReadCodec that hit the end *)
+    let insp_eof := is_tag (vnth 0 insp) "insperr" && is_tag (vnth 1 insp) "eof" in
+    let open_eof := is_tag (vnth 0 scan) "openerr" && is_tag (vnth 1 scan) "eof" in
+    let idx_eof := is_tag (vnth 0 idx) "idxerr" && is_tag (vnth 1 idx) "eof" in
+    if insp_eof && negb open_eof && negb (scan_ok && idx_eof)
+    then VL [VT "FAIL"; VT "inspect-error-is-clean-eof"]
+    else if insp_ok && negb scan_ok then VL [VT "FAIL"; VT "inspect-succeeds-scan-fails"]
+    else if insp_ok && negb idx_ok then VL [VT "FAIL"; VT "inspect-succeeds-index-codec-unreadable"]
+    else if negb insp_ok && scan_ok && idx_ok then VL [VT "FAIL"; VT "scan-succeeds-inspect-fails"]
+    else if negb insp_ok then VT "ok"
+    else
+      let version := vN (vnth 1 scan) in
+      let roots := vcids (vnth 2 scan) in
+      let blocks := vblocks (vnth 0 (vnth 3 scan)) in
+      let hdrv := if version =? 2
+                  then match read_v2hdr (drop 11 (vB (vnth 1 input))) with
+                       | Ok (h, _) => h
+                       | Err _ => zero_v2hdr
+                       end
+                  else zero_v2hdr in
+      let codec := if is_tag (vnth 0 idx) "idx" then vN (vnth 1 idx) else 0 in
+      let want := v_stats (stats_of version hdrv roots blocks codec) in
+      match first_diff stat_names (tl (vL insp)) want with
+      | None => VT "ok"
+      | Some nm => VL [VT "FAIL"; VT "stats-differ"; VT nm]
+      end.
